@@ -9,7 +9,11 @@
    the extracted [run_measure] is run on the same matrices as the implementation. *)
 From Coq Require Import QArith List Arith Permutation.
 From BCT Require Import Base.Mat Base.SumQ Model.SymTerm Proofs.SymTerm Proofs.SymTermLib.
-From BCT Require Import Gen.SymTermGen Model.SymTermGenRun Proofs.SymTermGenThm.
+From BCT Require Import Gen.SymTermGen Model.SymTermGenRun Proofs.SymTermGenThm Model.SymTermKinds Proofs.SymTermKinds.
+(* statement-level models of other properties (only Required: C03 Distance, C16 Components, C08 Between, C15 Core, C18 Walks / Linear) *)
+From BCT Require Import Model.Linear Proofs.EquivModelsLinear Proofs.SymTermFull.
+From BCT Require Model.Distance Proofs.DistanceBase Proofs.DistanceBin Proofs.DistanceOther Model.Components Model.Between Model.Core Proofs.Core Model.Walks.
+From BCT Require Proofs.EquivModels Proofs.EquivModelsComp Proofs.EquivModelsBetw Proofs.EquivModelsCore Proofs.EquivModelsWalks.
 Import ListNotations.
 Open Scope Q_scope.
 
@@ -50,17 +54,18 @@ Theorem C04_measure_equivariant_matrix : forall pr A ci ks i j,
   eval_m prims n pr (pm p A) (pv p ci) ks i j == eval_m prims n pr A ci ks (p i) (p j).
 Proof. exact (measure_equivariant_matrix prims prims_proper n p Hp). Qed.
 
-(* every entry of the dispatch table the driver runs (all measures of the library, all parameters) *)
+(* BY OUTPUT KIND.  eval_s / eval_v / eval_m read a result of another kind as the constant 0, so only the reading that
+   matches the program's kind says something.  [kind_code pr] (0 scalar, 1 vector, 2 matrix) is computed from the syntax;
+   [equivariant_as c pr A ci ks] is the statement in reading c; [reads_as]: the result really has that constructor. *)
+Theorem C04_measure_equivariant_kinded : forall pr A ci ks,
+  equivariant_as prims n p (kind_code pr) pr A ci ks /\
+  reads_as (kind_code pr) (eval prims n pr A ci ks) (eval_s prims n pr A ci ks) (eval_v prims n pr A ci ks) (eval_m prims n pr A ci ks).
+Proof. intros. split; [exact (measure_equivariant_kinded prims prims_proper n p Hp pr A ci ks)|exact (eval_reads prims n pr A ci ks)]. Qed.
+(* every entry of the dispatch table the driver runs (all measures of the library, all parameters): its kind is the one
+   the table kind_by_id pins for it (whatever k), and it is equivariant in THAT reading *)
 Theorem C04_library_equivariant : forall id k A ci ks,
-  eval_s prims n (measure_by_id id k) (pm p A) (pv p ci) ks == eval_s prims n (measure_by_id id k) A ci ks /\
-  (forall i, eval_v prims n (measure_by_id id k) (pm p A) (pv p ci) ks i == eval_v prims n (measure_by_id id k) A ci ks (p i)) /\
-  (forall i j, eval_m prims n (measure_by_id id k) (pm p A) (pv p ci) ks i j == eval_m prims n (measure_by_id id k) A ci ks (p i) (p j)).
-Proof.
-  intros. split; [|split]; intros.
-  - exact (measure_equivariant_scalar prims prims_proper n p Hp _ A ci ks).
-  - exact (measure_equivariant_vector prims prims_proper n p Hp _ A ci ks i).
-  - exact (measure_equivariant_matrix prims prims_proper n p Hp _ A ci ks i j).
-Qed.
+  measure_kind id k = kind_by_id id /\ equivariant_as prims n p (kind_by_id id) (measure_by_id id k) A ci ks.
+Proof. exact (library_equivariant_kinded prims prims_proper n p Hp). Qed.
 
 (* instances, by output kind (each term's kind is checked by the Examples at the end) *)
 Theorem C04_degrees_und : forall A ci ks i,
@@ -110,18 +115,210 @@ Theorem C04_kcoreness : forall und K A ci ks i,
   eval_v prims n (t_kcoreness und K) (pm p A) (pv p ci) ks i == eval_v prims n (t_kcoreness und K) A ci ks (p i).
 Proof. intros und K. exact (measure_equivariant_vector prims prims_proper n p Hp (t_kcoreness und K)). Qed.
 
-(* LAPACK measures: only the defining equation (full statements: pagerank_full_statement,
-   eigenvector_full_statement in Proofs/SymTermLib.v, not proved) *)
-Theorem C04_pagerank_equation_partial : forall A r d,
+(* LAPACK measures.  The renumbered solution solves the renumbered equation (every A, every d, every lambda) ... *)
+Theorem C04_pagerank_equation : forall A r d,
   solves_pagerank prims n A r d -> solves_pagerank prims n (pm p A) (pv p r) d.
-Proof. exact (pagerank_equation_partial prims prims_proper n p Hp). Qed.
-Theorem C04_eigenvector_equation_partial : forall A v lam,
+Proof. exact (pagerank_equation prims prims_proper n p Hp). Qed.
+Theorem C04_eigenvector_equation : forall A v lam,
   is_eigenvector prims n A v lam -> is_eigenvector prims n (pm p A) (pv p v) lam.
-Proof. exact (eigenvector_equation_partial prims prims_proper n p Hp). Qed.
+Proof. exact (eigenvector_equation prims prims_proper n p Hp). Qed.
+(* ... and the FULL statements: what the routine RETURNS commutes with the renumbering.
+   pagerank_centrality(A, d): for A >= 0 and 0 <= d < 1 the system has exactly one solution (C18), so ANY solver of it -
+   normalisation r /= sum(r) included - is equivariant.  (The earlier text of pagerank_full_statement quantified over
+   singular systems such as d = 1 and was false.) *)
+Theorem C04_pagerank_full : forall (solver : mat Q -> Q -> vec Q),
+  (forall A d, nonneg_mat n A -> 0 <= d -> d < 1 -> solves_pagerank prims n A (solver A d) d) ->
+  forall A d, nonneg_mat n A -> 0 <= d -> d < 1 -> forall i, (i < n)%nat ->
+    solver (pm p A) d i == solver A d (p i) /\
+    pr_norm n (solver (pm p A) d) i == pr_norm n (solver A d) (p i).
+Proof. exact (pagerank_full prims n p Hp). Qed.
+(* eigenvector_centrality_und: on connected (irreducible) undirected non-negative networks ANY routine returning a
+   non-negative non-zero eigenvector of fixed norm - for whichever eigenvalue - is equivariant, and so is the eigenvalue
+   (uniqueness half of Perron-Frobenius, proved over Q).  (The earlier text asked only `is_eigenvector`, which the zero
+   vector and every multiple satisfy: it was false.)  ASSUMED, as a hypothesis on the routine: that abs(V[:, argmax])
+   is such a vector (C18_eigenvector_abs_ok_partial derives it from two Rayleigh-quotient hypotheses on LAPACK's output). *)
+Theorem C04_eigenvector_full : forall (solver : mat Q -> vec Q) (lam : mat Q -> Q) (norm2 : Q),
+  (forall A, symmetric_mat n A -> nonneg_mat n A -> irreducible n A ->
+     is_eigenvector prims n A (solver A) (lam A) /\ nonneg_vec n (solver A) /\
+     (exists i, (i < n)%nat /\ ~ solver A i == 0) /\ normsq n (solver A) == norm2) ->
+  forall A, symmetric_mat n A -> nonneg_mat n A -> irreducible n A ->
+    lam (pm p A) == lam A /\ forall i, (i < n)%nat -> solver (pm p A) i == solver A (p i).
+Proof. exact (eigenvector_full prims n p Hp). Qed.
+(* the two residual TERMS denote the systems of C18's model (Model/Linear.v) *)
+Theorem C04_residual_terms_denote : forall A r d i,
+  ((i < n)%nat -> pagerank_residual prims n A r d i == mvecQ n (pr_B n A d) r i - pr_b d (uniform n) i) /\
+  eigen_residual prims n A r d i == mvecQ n A r i - d * r i.
+Proof. intros A r d i. split; [exact (pagerank_residual_denote prims n A r d i)|exact (eigen_residual_denote prims n A r d i)]. Qed.
 Theorem C04_subgraph_truncation_partial : forall K A ci ks i,
   eval_v prims n (t_subgraph_trunc K) (pm p A) (pv p ci) ks i == eval_v prims n (t_subgraph_trunc K) A ci ks (p i).
 Proof. exact (subgraph_truncation_partial prims prims_proper n p Hp). Qed.
 End C04.
+
+(* ================================================================================================================ *)
+(* THE STATEMENT-LEVEL MODELS.  The terms above for distances, betweenness, components, cores and walks are closed-form
+   SPECIFICATIONS; the code is a search (matrix-power loop, Floyd-Warshall `for k in range(n)`, Dijkstra with its batch of
+   equal-distance nodes, breadth-first queue, set-merging loop over the edge list, peeling rounds with np.where in index
+   order).  Those loops are modelled statement by statement in Model/{Distance,Components,Between,Core,Walks}.v (other
+   properties; that each model IS the code is their correspondence) and proved there to return a specification that does
+   not mention the visiting order.  Here: that specification is equivariant (a renumbering maps walks to walks, minimum
+   lengths to minimum lengths, the set of ALL minimum-length walks bijectively, paths to paths, feasible core sets to
+   feasible core sets, matrix powers to matrix powers) and determines its value, hence
+                 model (p.A)  =  p.(model A)            for the LOOPS AS WRITTEN:
+   no result depends on the order in which the nodes happen to be visited.  Outputs the property leaves free and that
+   genuinely depend on that order under ties are NOT claimed: hops / Pmat of distance_wei_floyd, B of distance_wei
+   (number of edges of the minimum-length walk met first), label numbers of get_components (see there), peelorder. *)
+Section C04Models.
+Variable n : nat.
+Variable p : nat -> nat.
+Hypothesis Hp : perm_on n p.
+Import Model.Distance.
+
+(* every renumbering has an inverse renumbering *)
+Theorem C04_inverse_renumbering :
+  perm_on n (EquivModels.inv_perm n p) /\
+  (forall j, (j < n)%nat -> p (EquivModels.inv_perm n p j) = j) /\ (forall i, (i < n)%nat -> EquivModels.inv_perm n p (p i) = i).
+Proof.
+  split; [exact (EquivModels.inv_perm_perm_on n p Hp)|split].
+  - intros j Hj. exact (proj1 (EquivModels.inv_perm_r n p j Hp Hj)).
+  - exact (fun i Hi => EquivModels.inv_perm_l n p i Hp Hi).
+Qed.
+
+(* --- C03: distances.  [oeq]: equality of extended lengths (option Q up to ==) --- *)
+(* distance_wei_floyd: the k-loop in index order; every transform *)
+Theorem C04_floyd_model_equivariant : forall L : mat len, Distance.nonneg n L ->
+  forall i j, (i < n)%nat -> (j < n)%nat -> DistanceBase.oeq (spl (floyd n (pm p L)) i j) (spl (floyd n L) (p i) (p j)).
+Proof. exact (EquivModels.floyd_model_equivariant n p Hp). Qed.
+Theorem C04_distance_wei_floyd_model_equivariant : forall (nlog : Q -> Q) (A : mat Q) (tr : transform),
+  (forall w, 0 < w -> w <= 1 -> 0 <= nlog w) ->
+  (forall i j, (i < n)%nat -> (j < n)%nat -> 0 <= A i j) ->
+  (tr = TLog -> forall i j, (i < n)%nat -> (j < n)%nat -> A i j <= 1) ->
+  forall i j, (i < n)%nat -> (j < n)%nat ->
+    DistanceBase.oeq (spl (distance_wei_floyd nlog n (pm p A) tr) i j) (spl (distance_wei_floyd nlog n A tr) (p i) (p j)).
+Proof. exact (EquivModels.distance_wei_floyd_model_equivariant n p Hp). Qed.
+(* distance_bin (matrix-power loop): both runs return, and the matrices correspond *)
+Theorem C04_distance_bin_model_equivariant : forall A : mat Z,
+  exists D' D, distance_bin n (pm p A) = Some D' /\ distance_bin n A = Some D /\
+    forall i j, (i < n)%nat -> (j < n)%nat -> D' i j = D (p i) (p j).
+Proof. exact (EquivModels.distance_bin_model_equivariant n p Hp). Qed.
+(* distance_wei (Dijkstra as written), non-negative entries: the distance output *)
+Theorem C04_distance_wei_model_equivariant : forall G : mat Q, (forall i j, (i < n)%nat -> (j < n)%nat -> 0 <= G i j) ->
+  exists D' B' D B, distance_wei n (pm p G) = Some (D', B') /\ distance_wei n G = Some (D, B) /\
+    forall i j, (i < n)%nat -> (j < n)%nat -> DistanceBase.oeq (D' i j) (D (p i) (p j)).
+Proof. exact (EquivModels.distance_wei_model_equivariant n p Hp). Qed.
+(* breadthdist (one breadth-first search per source; queue in index order) and reachdist (matrix powers with pruning
+   lists): both outputs, every ordered pair, diagonal included *)
+Theorem C04_breadthdist_model_equivariant : forall C : mat Z,
+  exists R' D' R D, breadthdist n (pm p C) = Some (R', D') /\ breadthdist n C = Some (R, D) /\
+    forall i j, (i < n)%nat -> (j < n)%nat -> D' i j = D (p i) (p j) /\ R' i j = R (p i) (p j).
+Proof. exact (EquivModels.breadthdist_model_equivariant n p Hp). Qed.
+Theorem C04_reachdist_model_equivariant : forall A : mat Z,
+  exists R' D' R D, reachdist n (pm p A) = Some (R', D') /\ reachdist n A = Some (R, D) /\
+    forall i j, (i < n)%nat -> (j < n)%nat -> D' i j = D (p i) (p j) /\ R' i j = R (p i) (p j).
+Proof. exact (EquivModels.reachdist_model_equivariant n p Hp). Qed.
+
+(* --- C16: get_components (edge list in row-major order, set-merging loop).  Refused together (asymmetric input);
+   otherwise the PARTITION is transported, the number of components is the same, and the label numbers and comp_sizes
+   are those of the original UP TO ONE RENAMING sigma, a bijection of 1..m (a block's number is its position in the
+   list union_sets, which depends on the order in which the edges arrive: label numbers are not equivariant, and the
+   property leaves them free) --- *)
+Theorem C04_get_components_model_equivariant : forall A : mat Z,
+  (Components.get_components n (pm p A) = None <-> Components.get_components n A = None) /\
+  forall c' s' c s, Components.get_components n (pm p A) = Some (c', s') -> Components.get_components n A = Some (c, s) ->
+    (forall u v, (u < n)%nat -> (v < n)%nat -> (nth u c' 0%nat = nth v c' 0%nat <-> nth (p u) c 0%nat = nth (p v) c 0%nat)) /\
+    length s' = length s /\
+    exists sigma : nat -> nat,
+      (forall l, (1 <= l <= length s')%nat -> (1 <= sigma l <= length s)%nat) /\
+      (forall l1 l2, (1 <= l1 <= length s')%nat -> (1 <= l2 <= length s')%nat -> sigma l1 = sigma l2 -> l1 = l2) /\
+      (forall l, (1 <= l <= length s)%nat -> exists l', (1 <= l' <= length s')%nat /\ sigma l' = l) /\
+      (forall u, (u < n)%nat -> nth (p u) c 0%nat = sigma (nth u c' 0%nat)) /\
+      (forall l, (1 <= l <= length s')%nat -> nth (sigma l - 1) s 0%nat = nth (l - 1) s' 0%nat).
+Proof. exact (EquivModelsComp.get_components_model_equivariant n p Hp). Qed.
+Theorem C04_number_of_components_model_equivariant : forall A : mat Z,
+  Components.number_of_components n (pm p A) = Components.number_of_components n A.
+Proof. exact (EquivModelsComp.number_of_components_model_equivariant n p Hp). Qed.
+
+(* --- C08: the four betweenness routines (G = lengths, 0 = no connection) --- *)
+Theorem C04_betweenness_model_equivariant : forall G : mat Z,
+  (Between.binary n G ->
+     exists BC' BC, Between.betweenness_bin n (pm p G) = Some BC' /\ Between.betweenness_bin n G = Some BC /\
+       forall v, (v < n)%nat -> BC' v == BC (p v)) /\
+  (Between.nonneg_len n G ->
+     exists BC' BC, Between.betweenness_wei n (pm p G) = Some BC' /\ Between.betweenness_wei n G = Some BC /\
+       forall v, (v < n)%nat -> BC' v == BC (p v)).
+Proof.
+  intros G. split; [exact (EquivModelsBetw.betweenness_bin_model_equivariant n p Hp G)|exact (EquivModelsBetw.betweenness_wei_model_equivariant n p Hp G)].
+Qed.
+Theorem C04_edge_betweenness_model_equivariant : forall G : mat Z,
+  (Between.binary n G ->
+     exists EBC' BC' EBC BC, Between.edge_betweenness_bin n (pm p G) = Some (EBC', BC') /\ Between.edge_betweenness_bin n G = Some (EBC, BC) /\
+       (forall v, (v < n)%nat -> BC' v == BC (p v)) /\
+       (forall x y, (x < n)%nat -> (y < n)%nat -> EBC' x y == EBC (p x) (p y))) /\
+  (Between.nonneg_len n G ->
+     exists EBC' BC' EBC BC, Between.edge_betweenness_wei n (pm p G) = Some (EBC', BC') /\ Between.edge_betweenness_wei n G = Some (EBC, BC) /\
+       (forall v, (v < n)%nat -> BC' v == BC (p v)) /\
+       (forall x y, (x < n)%nat -> (y < n)%nat -> EBC' x y == EBC (p x) (p y))).
+Proof.
+  intros G. split; [exact (EquivModelsBetw.edge_betweenness_bin_model_equivariant n p Hp G)|exact (EquivModelsBetw.edge_betweenness_wei_model_equivariant n p Hp G)].
+Qed.
+
+(* --- C15: the peeling loops.  core = the surviving node set, pr_M = the returned matrix, kn = its size --- *)
+Theorem C04_kcore_model_equivariant : forall (W : mat Q) (k : Q),
+  (Core.symmetric n W ->
+     exists r' r, Core.kcore_bu n (pm p W) k = Some r' /\ Core.kcore_bu n W k = Some r /\ EquivModelsCore.core_outputs_equivariant n p r' r) /\
+  (exists r' r, Core.kcore_bd n (pm p W) k = Some r' /\ Core.kcore_bd n W k = Some r /\ EquivModelsCore.core_outputs_equivariant n p r' r) /\
+  (Core.symmetric n W -> Core.nonneg n W ->
+     exists r' r, Core.score_wu n (pm p W) k = Some r' /\ Core.score_wu n W k = Some r /\ EquivModelsCore.core_outputs_equivariant n p r' r).
+Proof.
+  intros W k. split; [exact (EquivModelsCore.kcore_bu_model_equivariant n p Hp W k)|split].
+  - exact (EquivModelsCore.kcore_bd_model_equivariant n p Hp W k).
+  - exact (EquivModelsCore.score_wu_model_equivariant n p Hp W k).
+Qed.
+Theorem C04_core_outputs_unfold : forall r' r, EquivModelsCore.core_outputs_equivariant n p r' r <->
+  ((forall j, (j < n)%nat -> Core.core r' j = Core.core r (p j)) /\
+   (forall i j, (i < n)%nat -> (j < n)%nat -> Core.pr_M r' i j == Core.pr_M r (p i) (p j)) /\
+   Core.kn_of n (Core.pr_deg r') = Core.kn_of n (Core.pr_deg r)).
+Proof. intros. reflexivity. Qed.
+(* the scans `for k in range(N)`: coreness permuted, the vector kn of k-core sizes unchanged *)
+Theorem C04_kcoreness_model_equivariant : forall W : mat Q,
+  (Core.symmetric n W -> Core.nonneg n W -> (forall i, (i < n)%nat -> W i i == 0) ->
+     exists cor' kn' cor kn, Core.kcoreness_centrality_bu n (pm p W) = Some (cor', kn') /\
+       Core.kcoreness_centrality_bu n W = Some (cor, kn) /\ (forall j, (j < n)%nat -> cor' j = cor (p j)) /\ kn' = kn) /\
+  (Core.nonneg n W ->
+     exists cor' kn' cor kn, Core.kcoreness_centrality_bd n (pm p W) = Some (cor', kn') /\
+       Core.kcoreness_centrality_bd n W = Some (cor, kn) /\ (forall j, (j < n)%nat -> cor' j = cor (p j)) /\ kn' = kn).
+Proof.
+  intros W. split; [exact (EquivModelsCore.kcoreness_bu_model_equivariant n p Hp W)|exact (EquivModelsCore.kcoreness_bd_model_equivariant n p Hp W)].
+Qed.
+
+(* --- C18: findwalks (the loop over matrix powers): slices permuted on both node axes, wlq and twalk unchanged --- *)
+Theorem C04_findwalks_model_equivariant : forall A : mat Z,
+  (Walks.findwalks n (pm p A) = None <-> Walks.findwalks n A = None) /\
+  forall Wq' Wq, Walks.findwalks n (pm p A) = Some Wq' -> Walks.findwalks n A = Some Wq ->
+    (forall q i j, (q < n)%nat -> (i < n)%nat -> (j < n)%nat -> Wq' q i j = Wq q (p i) (p j)) /\
+    (forall q, (q < n)%nat -> Walks.wlq n Wq' q = Walks.wlq n Wq q) /\
+    Walks.twalk n Wq' = Walks.twalk n Wq.
+Proof. exact (EquivModelsWalks.findwalks_model_equivariant n p Hp). Qed.
+
+(* --- C18: pagerank_centrality(A, d, falff) in the vocabulary of Model/Linear.v: x' / r' = whatever `solve` returns for the
+   renumbered / original system (only assumed to solve it); the prior falff is renumbered WITH the nodes --- *)
+Theorem C04_pagerank_model_equivariant : forall (A : mat Q) (d : Q) (falff : option (vec Q)) (x' r' : vec Q),
+  0 <= d -> d < 1 -> (forall i j, (i < n)%nat -> (j < n)%nat -> 0 <= A i j) ->
+  (forall i, (i < n)%nat -> mvecQ n (pr_B n (pm p A) d) x' i == pr_b d (pr_prior n (option_map (pv p) falff)) i) ->
+  (forall i, (i < n)%nat -> mvecQ n (pr_B n A d) r' i == pr_b d (pr_prior n falff) i) ->
+  (forall i, (i < n)%nat -> x' i == r' (p i)) /\
+  (forall i, (i < n)%nat -> pr_norm n x' i == pr_norm n r' (p i)).
+Proof. exact (EquivModelsLinear.pagerank_model_equivariant n p Hp). Qed.
+(* eigenvector centrality in the same vocabulary: proportional in general, equal under equal norms *)
+Theorem C04_eigenvector_model_equivariant : forall (A : mat Q) (v w : vec Q) (lam mu : Q), (0 < n)%nat ->
+  (forall i j, (i < n)%nat -> (j < n)%nat -> A i j == A j i) ->
+  (forall i j, (i < n)%nat -> (j < n)%nat -> 0 <= A i j) -> irreducible n A ->
+  nonneg_vec n v -> eigvec n A v lam -> (exists i, (i < n)%nat /\ ~ v i == 0) ->
+  nonneg_vec n w -> eigvec n (pm p A) w mu -> (exists i, (i < n)%nat /\ ~ w i == 0) ->
+  mu == lam /\
+  (exists t, 0 < t /\ forall i, (i < n)%nat -> w i == t * v (p i)) /\
+  (normsq n w == normsq n v -> forall i, (i < n)%nat -> w i == v (p i)).
+Proof. exact (EquivModelsLinear.eigenvector_model_equivariant n p Hp). Qed.
+End C04Models.
 
 (* a permutation given as a list is a renumbering; and the theorem at the level of the lists the extracted
    evaluator reads and prints *)
@@ -162,10 +359,9 @@ Proof. exact denote_transitivity_bu. Qed.
 Theorem C04_gen_equivariant : forall prims, (forall k a b, a == b -> prims k a == prims k b) ->
   forall n p, perm_on n p ->
   forall name pr, In (name, pr) gen_table -> forall A ci ks,
-  eval_s prims n pr (pm p A) (pv p ci) ks == eval_s prims n pr A ci ks /\
-  (forall i, eval_v prims n pr (pm p A) (pv p ci) ks i == eval_v prims n pr A ci ks (p i)) /\
-  (forall i j, eval_m prims n pr (pm p A) (pv p ci) ks i j == eval_m prims n pr A ci ks (p i) (p j)).
-Proof. exact gen_equivariant. Qed.
+  equivariant_as prims n p (kind_code pr) pr A ci ks /\
+  reads_as (kind_code pr) (eval prims n pr A ci ks) (eval_s prims n pr A ci ks) (eval_v prims n pr A ci ks) (eval_m prims n pr A ci ks).
+Proof. exact gen_equivariant_kinded. Qed.
 (* the same for what the extracted driver prints (run_gen idx on lists), A[ix_(l,l)] for any permutation list l *)
 Theorem C04_gen_run_equivariant : forall prims, (forall k a b, a == b -> prims k a == prims k b) ->
   forall idx n A ci ks l, square n A -> List.length ci = n -> Permutation l (seq 0 n) ->
@@ -236,6 +432,7 @@ Print Assumptions C04_prog_equivariant.
 Print Assumptions C04_measure_equivariant_scalar.
 Print Assumptions C04_measure_equivariant_vector.
 Print Assumptions C04_measure_equivariant_matrix.
+Print Assumptions C04_measure_equivariant_kinded.
 Print Assumptions C04_library_equivariant.
 Print Assumptions C04_degrees_und.
 Print Assumptions C04_clustering_coef_bu.
@@ -250,9 +447,29 @@ Print Assumptions C04_components.
 Print Assumptions C04_assortativity_wei.
 Print Assumptions C04_betweenness_bin.
 Print Assumptions C04_kcoreness.
-Print Assumptions C04_pagerank_equation_partial.
-Print Assumptions C04_eigenvector_equation_partial.
+Print Assumptions C04_pagerank_equation.
+Print Assumptions C04_eigenvector_equation.
+Print Assumptions C04_pagerank_full.
+Print Assumptions C04_eigenvector_full.
+Print Assumptions C04_residual_terms_denote.
 Print Assumptions C04_subgraph_truncation_partial.
+Print Assumptions C04_inverse_renumbering.
+Print Assumptions C04_floyd_model_equivariant.
+Print Assumptions C04_distance_wei_floyd_model_equivariant.
+Print Assumptions C04_distance_bin_model_equivariant.
+Print Assumptions C04_distance_wei_model_equivariant.
+Print Assumptions C04_breadthdist_model_equivariant.
+Print Assumptions C04_reachdist_model_equivariant.
+Print Assumptions C04_get_components_model_equivariant.
+Print Assumptions C04_number_of_components_model_equivariant.
+Print Assumptions C04_betweenness_model_equivariant.
+Print Assumptions C04_edge_betweenness_model_equivariant.
+Print Assumptions C04_kcore_model_equivariant.
+Print Assumptions C04_core_outputs_unfold.
+Print Assumptions C04_kcoreness_model_equivariant.
+Print Assumptions C04_findwalks_model_equivariant.
+Print Assumptions C04_pagerank_model_equivariant.
+Print Assumptions C04_eigenvector_model_equivariant.
 Print Assumptions C04_list_permutation.
 Print Assumptions C04_run_equivariant.
 Print Assumptions C04_every_term_measure_equivariant.
